@@ -77,6 +77,9 @@ func TestVerif_C19S(t *testing.T) {
 	env := verifSetup(t, func(c *AppConfigFile, dir string) {
 		c.Base.AllowedAuthBackendsForWebUI = []string{"password"}
 		c.Base.AllowedAuthBackendsForCerts = []string{"password"}
+		// the client runs log in more than ten times within a few seconds
+		c.Base.PasswordAttemptGlobalBurstLimit = 100
+		c.Base.PasswordAttemptGlobalRateLimit = 10
 		// an Ed25519 CA, sealed with the same passphrase as the main one
 		_, edPriv, err := ed25519.GenerateKey(rand.Reader)
 		if err != nil {
